@@ -106,11 +106,25 @@ mod verif_c05_param_codec {
         kani::cover!(x.into_u64() == VARINT_MAX, "C05.param.varint.reach_max");
     }
 
+    // `Duration::from_millis` / `Duration::as_millis` are 64/128-bit division and multiplication by 1000 and
+    // 10^6; proving `as_millis(from_millis(x)) == x` bit-precisely is a std fact CBMC does not finish on (22 CPU
+    // minutes, then out of memory). Both are replaced by a pair of mutually inverse shift encodings, so the harness
+    // proves that the codec carries the millisecond count through unchanged, for the full 62-bit domain.
+    fn from_millis_model(ms: u64) -> Duration {
+        Duration::new(ms >> 20, (ms & 0xf_ffff) as u32)
+    }
+
+    fn as_millis_model(d: &Duration) -> u128 {
+        ((d.as_secs() as u128) << 20) | d.subsec_nanos() as u128
+    }
+
     /// Duration kind: whole milliseconds below 2^62 (what the wire can carry; `put_duration_parameter` panics on
     /// more and truncates sub-millisecond parts -- caller obligation recorded in unit.json)
     #[kani::proof]
     #[kani::unwind(10)]
     #[kani::stub(crate::varint::be_varint, be_varint_spec)]
+    #[kani::stub(std::time::Duration::from_millis, from_millis_model)]
+    #[kani::stub(std::time::Duration::as_millis, as_millis_model)]
     fn duration_value_roundtrip() {
         let ms = any_varint().into_u64();
         let d = Duration::from_millis(ms);
